@@ -135,6 +135,7 @@ var c15PersonalFaults = []string{"absent", "good", "empty", "malformed", "direct
 func c15AliasesMain(persF string) bool {
 	return persF == "same-path" || persF == "hardlink-main" || persF == "symlink-main"
 }
+
 var c15BackupFaults = []string{"absent", "good", "malformed", "empty"}
 
 var c15MainCmds = []database.Command{
